@@ -95,17 +95,18 @@ type emitRec struct {
 
 // eventMonitor implements C16 part A.
 type eventMonitor struct {
-	mu       sync.Mutex
-	emitted  map[int][]emitRec // per replica, in emission order (EventWrite / EventReplicated only)
-	received map[int][]emitRec // what the stalled bus subscriber has read
-	subs     map[int]event.Subscription
-	legacy   map[int]<-chan events.Event // the store's deprecated channel API (Subscribe)
-	legacyRx map[int][]emitRec
-	cancels  map[int]context.CancelFunc
+	mu         sync.Mutex
+	emitted    map[int][]emitRec     // per replica, in emission order (EventWrite / EventReplicated only)
+	received   map[int][]emitRec     // what the stalled bus subscriber has read
+	kept       map[int][]interface{} // the event values it read, looked at again later: an event does not change once delivered
+	subs       map[int]event.Subscription
+	legacy     map[int]<-chan events.Event // the store's deprecated channel API (Subscribe)
+	legacyRx   map[int][]emitRec
+	cancels    map[int]context.CancelFunc
 	legacyBase map[int]int // number of emissions before the legacy subscription was made
-	written  map[string]bool
-	actWrite map[int]int
-	actRepl  map[int][]string
+	written    map[string]bool
+	actWrite   map[int]int
+	actRepl    map[int][]string
 }
 
 func recOf(evt interface{}) (emitRec, bool) {
@@ -119,7 +120,7 @@ func recOf(evt interface{}) (emitRec, bool) {
 }
 
 func installEventMonitor(w *Writers, prop string) {
-	m := &eventMonitor{emitted: map[int][]emitRec{}, received: map[int][]emitRec{}, subs: map[int]event.Subscription{},
+	m := &eventMonitor{emitted: map[int][]emitRec{}, received: map[int][]emitRec{}, kept: map[int][]interface{}{}, subs: map[int]event.Subscription{},
 		legacy: map[int]<-chan events.Event{}, legacyRx: map[int][]emitRec{}, cancels: map[int]context.CancelFunc{}, legacyBase: map[int]int{},
 		written: map[string]bool{}, actWrite: map[int]int{}, actRepl: map[int][]string{}}
 	subscribe := func(w *Writers, i int) {
@@ -164,7 +165,7 @@ func installEventMonitor(w *Writers, prop string) {
 	})
 	w.OnRestart = append(w.OnRestart, func(w *Writers, i int) {
 		m.mu.Lock()
-		m.emitted[i], m.received[i] = nil, nil
+		m.emitted[i], m.received[i], m.kept[i] = nil, nil, nil
 		m.mu.Unlock()
 		subscribe(w, i)
 	})
@@ -237,6 +238,7 @@ func installEventMonitor(w *Writers, prop string) {
 					if rec, ok := recOf(evt); ok {
 						m.mu.Lock()
 						m.received[i] = append(m.received[i], rec)
+						m.kept[i] = append(m.kept[i], evt)
 						m.mu.Unlock()
 					}
 					progress = true
@@ -299,6 +301,7 @@ func installEventMonitor(w *Writers, prop string) {
 						if rec, ok := recOf(evt); ok {
 							m.mu.Lock()
 							m.received[i] = append(m.received[i], rec)
+							m.kept[i] = append(m.kept[i], evt)
 							m.mu.Unlock()
 						}
 						progress = true
@@ -368,6 +371,12 @@ func installEventMonitor(w *Writers, prop string) {
 					}
 				}
 			}
+			for k, evt := range m.kept[i] {
+				if now, _ := recOf(evt); k < len(m.received[i]) && now != m.received[i][k] {
+					w.pending = append(w.pending, explore.Violation{Property: prop, Signature: "event-content-changed-after-delivery",
+						Detail: fmt.Sprintf("replica %d: event %d was %v when the subscriber read it and is %v now (its payload shares memory with something written later)", i, k, m.received[i][k], now)})
+				}
+			}
 			if fmt.Sprint(m.emitted[i]) != fmt.Sprint(m.received[i]) {
 				w.pending = append(w.pending, explore.Violation{Property: prop, Signature: "bus-subscriber-sequence-differs",
 					Detail: fmt.Sprintf("replica %d: emitted %d events, slow subscriber received %d: %v vs %v", i, len(m.emitted[i]), len(m.received[i]), m.emitted[i], m.received[i])})
@@ -413,7 +422,7 @@ func installEventMonitor(w *Writers, prop string) {
 func init() {
 	explore.Register(&explore.CheckDef{
 		ID: "C16", Level: "model_checking",
-		Rule: "Part A: explicit-state DFS over write/merge/announce/restart histories (three store types); a monitor running synchronously inside every EventWrite/EventReplicated emission requires the announced entries to be in the log, the view to equal the replay of the log, and the cached heads to cover them; exactly one write event per write, a replicated event for every merged batch; a bus subscriber with a 1-slot buffer and a subscriber on the store's legacy channel API, both reading only between actions, must receive exactly the emission sequence. Part B: every interleaving (deviation-bounded DFS, all executions run to completion) of producer, the legacy emitter's reader and drain goroutines at their three schedule points, and the consumer, after the 16-slot delivery channel has been filled; the subscriber must receive 1..n exactly. Non-trivial = executions with at least one deviation from the canonical schedule / states with merged writers.",
+		Rule: "Part A: explicit-state DFS over write/merge/announce/restart histories (three store types); a monitor running synchronously inside every EventWrite/EventReplicated emission requires the announced entries to be in the log, the view to equal the replay of the log, and the cached heads to cover them; exactly one write event per write, a replicated event for every merged batch; a bus subscriber with a 1-slot buffer and a subscriber on the store's legacy channel API, both reading only between actions, must receive exactly the emission sequence, and an event's content may not change after it was delivered. Part B: every interleaving (deviation-bounded DFS, all executions run to completion) of producer, the legacy emitter's reader and drain goroutines at their three schedule points, and the consumer, after the 16-slot delivery channel has been filled; the subscriber must receive 1..n exactly. Non-trivial = executions with at least one deviation from the canonical schedule / states with merged writers.",
 		Units: func(tier string) []explore.Unit {
 			var u []explore.Unit
 			d := 4
